@@ -83,6 +83,83 @@ type recAny struct {
 	V    float64 `shp:"VALUE"`
 }
 
+
+// second column layout: a 10-byte and an 11-byte column name (the DBF limit), the string column last
+type recPointB struct {
+	geom.Point
+	Identifier  int
+	Measurement float64 `shp:"Measurement"`
+	Name        string
+}
+type recMultiPointB struct {
+	geom.MultiPoint
+	Identifier  int
+	Measurement float64 `shp:"Measurement"`
+	Name        string
+}
+type recLineStringB struct {
+	geom.LineString
+	Identifier  int
+	Measurement float64 `shp:"Measurement"`
+	Name        string
+}
+type recMultiLineStringB struct {
+	geom.MultiLineString
+	Identifier  int
+	Measurement float64 `shp:"Measurement"`
+	Name        string
+}
+type recPolygonB struct {
+	geom.Polygon
+	Identifier  int
+	Measurement float64 `shp:"Measurement"`
+	Name        string
+}
+type recBoundsB struct {
+	*geom.Bounds
+	Identifier  int
+	Measurement float64 `shp:"Measurement"`
+	Name        string
+}
+type recAnyB struct {
+	Geom        geom.Geom
+	IDENTIFIER  int
+	Measurement float64 `shp:"MEASUREMENT"`
+	NAME        string
+}
+
+func c16ArchetypeB(kind string) interface{} {
+	switch kind {
+	case "Point":
+		return recPointB{}
+	case "MultiPoint":
+		return recMultiPointB{}
+	case "LineString":
+		return recLineStringB{}
+	case "MultiLineString":
+		return recMultiLineStringB{}
+	case "Polygon":
+		return recPolygonB{}
+	}
+	return recBoundsB{}
+}
+
+func c16RecordB(kind string, g geom.Geom, id int, name string, val float64) interface{} {
+	switch kind {
+	case "Point":
+		return recPointB{g.(geom.Point), id, val, name}
+	case "MultiPoint":
+		return recMultiPointB{g.(geom.MultiPoint), id, val, name}
+	case "LineString":
+		return recLineStringB{g.(geom.LineString), id, val, name}
+	case "MultiLineString":
+		return recMultiLineStringB{g.(geom.MultiLineString), id, val, name}
+	case "Polygon":
+		return recPolygonB{g.(geom.Polygon), id, val, name}
+	}
+	return recBoundsB{g.(*geom.Bounds), id, val, name}
+}
+
 func c16Archetype(kind string) interface{} {
 	switch kind {
 	case "Point":
@@ -169,6 +246,11 @@ func runC16(c map[string]interface{}) []Event {
 				var err error
 				if api == "struct" {
 					enc, err = gshp.NewEncoder(fn, c16Archetype(kind))
+				} else if api == "struct2" {
+					enc, err = gshp.NewEncoder(fn, c16ArchetypeB(kind))
+				} else if api == "fields2" {
+					enc, err = gshp.NewEncoderFromFields(fn, c16ShapeType(kind), shp.NumberField("identifier", 10),
+						shp.FloatField("measurement", 30, 10), shp.StringField("name", 50))
 				} else {
 					enc, err = gshp.NewEncoderFromFields(fn, c16ShapeType(kind), shp.NumberField("id", 10),
 						shp.StringField("name", 50), shp.FloatField("value", 30, 10))
@@ -195,6 +277,10 @@ func runC16(c map[string]interface{}) []Event {
 				var err error
 				if api == "struct" {
 					err = enc.Encode(c16Record(kind, g, id, name, val))
+				} else if api == "struct2" {
+					err = enc.Encode(c16RecordB(kind, g, id, name, val))
+				} else if api == "fields2" {
+					err = enc.EncodeFields(g, id, val, name)
 				} else {
 					err = enc.EncodeFields(g, id, name, val)
 				}
@@ -229,7 +315,36 @@ func runC16(c map[string]interface{}) []Event {
 			e["g"] = noG
 			e["out"] = safely(func() {
 				var got float64
-				if api == "struct" {
+				if api == "struct2" {
+					var rec recAnyB
+					more := dec.DecodeRow(&rec)
+					e["more"] = more
+					if more {
+						if rec.Geom != nil {
+							e["g"] = encGeom(rec.Geom, c16CoordEnc)
+						}
+						e["id"], e["name"] = rec.IDENTIFIER, nameIndex(rec.NAME)
+						got = rec.Measurement
+					}
+				} else if api == "fields2" {
+					g, fields, more := dec.DecodeRowFields("Identifier", "MEASUREMENT", "name")
+					e["more"] = more
+					if more {
+						if g != nil {
+							e["g"] = encGeom(g, c16CoordEnc)
+						}
+						id, err := strconv.ParseInt(strings.TrimSpace(fields["Identifier"]), 10, 64)
+						if err != nil {
+							id = -424242
+						}
+						e["id"] = int(id)
+						e["name"] = nameIndex(strings.TrimRight(fields["name"], " "))
+						got, err = strconv.ParseFloat(strings.TrimSpace(fields["MEASUREMENT"]), 64)
+						if err != nil {
+							got = math.NaN()
+						}
+					}
+				} else if api == "struct" {
 					var rec recAny
 					more := dec.DecodeRow(&rec)
 					e["more"] = more
@@ -297,7 +412,7 @@ func randomC16(rng *rand.Rand, n int) []map[string]interface{} {
 	out := make([]map[string]interface{}, n)
 	for i := range out {
 		kind := kinds[rng.Intn(len(kinds))]
-		api := []string{"struct", "fields"}[rng.Intn(2)]
+		api := []string{"struct", "fields", "struct2", "fields2"}[rng.Intn(4)]
 		ops := []interface{}{map[string]interface{}{"op": "create", "kind": kind, "api": api}}
 		nrec := 1 + rng.Intn(60)
 		for r := 0; r < nrec; r++ {
